@@ -99,6 +99,7 @@ def run(name, checks):
         sh(["git", "-C", tree, "checkout", "--", "."])
         shutil.copy(os.path.join(REPO, "Cargo.lock"), os.path.join(tree, "Cargo.lock"))
         env["VERIF_REPO"] = tree
+        env["VERIF_EVIDENCE"] = os.path.join(ROOT, "work", "seed-evidence")
     rc, log = sh(["git", "-C", tree, "status", "--porcelain", "--untracked-files=no"])
     if log.strip():
         print("refusing: %s has uncommitted changes:\n" % tree + log)
